@@ -19,6 +19,7 @@ from .gen import Generator, Expansion
 GHOST_KW = ('requires', 'ensures', 'invariant', 'invariant_except_break', 'decreases', 'recommends', 'opens_invariants', 'no_unwind')
 
 RENAMES = {
+    'bit': 'bn_bit', 'dbit': 'bn_dbit',
     'base': 'bn_base', 'bp': 'bn_bp', 'val_upto': 'bn_val', 'val_from': 'bn_valf', 'half': 'bn_half', 'sd': 'bn_sd',
     'swrap': 'bn_swrap', 'sval': 'bn_sval', 'pow': 'bn_pow',
 }
@@ -164,6 +165,8 @@ def automark_fn(text):
 def generalise(text):
     """u64-specific probe text -> placeholder form"""
     text = re.sub(r'\blemma_u64_', 'lemma_${D}_', text)
+    text = re.sub(r'\bu64_(leading|trailing)_(zeros|ones)\b', r'${D}_\1_\2', text)
+    text = re.sub(r'\baxiom_u64_', 'axiom_${D}_', text)
     text = re.sub(r'\bmod digit_u64\b', 'mod DIGITMOD', text)
     text = re.sub(r'\bdigit_u64\b', 'digit::$D', text)
     text = re.sub(r'\b0x1_0000_0000_0000_0000(int|nat|u128)\b', lambda m: '${BASE}' + ('$DD' if m.group(1) == 'u128' else m.group(1)), text)
